@@ -1010,7 +1010,7 @@ fn systematic(em: &mut Emitter, thorough: bool) {
                 continue;
             }
             for w in 1..=4 {
-                if i + w < n && (thorough || w == 4) {
+                if i + w < n && (w == 4 || (thorough && w == 1)) {
                     emit(em, "cut2", boundary, truth, "valid", vec![Ev::Chunk(full[..i].to_vec()), Ev::Pending, Ev::Chunk(full[i..i + w].to_vec()), Ev::Pending, Ev::Chunk(full[i + w..].to_vec())], None);
                 }
             }
@@ -1048,7 +1048,7 @@ fn main() {
             systematic(&mut em, args.thorough());
         }
         let mut rng = Rng::new(args.seed);
-        let n = args.n.unwrap_or(if args.thorough() { 5_000 } else { 400 });
+        let n = args.n.unwrap_or(if args.thorough() { 3_000 } else { 400 });
         for i in 0..n {
             let mut r = rng.fork();
             let c = gen_case(&mut r, args.thorough());
